@@ -81,6 +81,9 @@ impl Wake for CommandWaker {
 #[derive(Clone)]
 pub struct AbortHandle {
     pub(crate) aborted: Arc<AtomicBool>,
+    // Waker of the executor hosting the command (if any), so that an abort is
+    // noticed without waiting for an unrelated wake-up
+    pub(crate) waker: Arc<AtomicWaker>,
 }
 
 impl AbortHandle {
@@ -91,6 +94,10 @@ impl AbortHandle {
     /// safe, as they can be stopped at any of the await points or even before they are first polled
     pub fn abort(&self) {
         self.aborted.store(true, Ordering::Release);
+
+        // If the command is hosted (polled as a stream), wake the host so it
+        // polls the command again, drops its tasks and sees that it is done
+        self.waker.wake();
     }
 }
 
